@@ -135,7 +135,9 @@ func c08Exec(k *c08Case) *c08Outcome {
 		if mainDone {
 			// follow-up GetStatus: always clean
 			st = append(st, simkernel.Step{Dgram: simkernel.Ack(m, 0)})
-			st = append(st, simkernel.Step{Dgram: simkernel.Dgram(uapi.MsgGet, 0, m.Seq, m.Pid, followStatus)})
+			if m.Type == uapi.MsgGet {
+				st = append(st, simkernel.Step{Dgram: simkernel.Dgram(uapi.MsgGet, 0, m.Seq, m.Pid, followStatus)})
+			}
 			return st
 		}
 		errno := syscall.Errno(0)
@@ -267,15 +269,18 @@ func c08Exec(k *c08Case) *c08Outcome {
 	default:
 		out.ExpectOK = true
 	}
-	// follow-up traffic: only meaningful when the stream is in a defined state
-	if out.ExpectSendErr || (!advApplies && (out.ExpectOK || out.ExpectErrno != 0)) {
-		sim.Queue = nil
-		st, err := c.GetStatus()
-		out.Follow = err
-		out.FollowOK = err == nil && st != nil && statusEquals(st, followStatus)
-	} else {
-		out.FollowOK = true
+	// follow-up traffic on the same client, after whatever the main operation left unread is dropped: the
+	// kernel acknowledges a setter and a GetStatus cleanly, so both must succeed whatever happened before
+	// (each command stands for itself: a refused, malformed or foreign reply to an earlier request must not
+	// be held against a later one)
+	sim.Queue = nil
+	if err := c.SetBacklogLimit(r.Uint32(), libaudit.WaitForReply); err != nil {
+		out.Follow = fmt.Errorf("SetBacklogLimit: %w", err)
+		return out
 	}
+	st, err := c.GetStatus()
+	out.Follow = err
+	out.FollowOK = err == nil && st != nil && statusEquals(st, followStatus)
 	return out
 }
 
@@ -402,7 +407,7 @@ func c08Check(c *mon.Ctx, k *c08Case) {
 		}
 	}
 	if !o.FollowOK {
-		c.Violation("out-of-sync:"+k.Op, fmt.Sprintf("after the operation the client is out of step with the kernel: a following GetStatus returned %v / wrong data\n  %s", o.Follow, desc), k)
+		c.Violation("out-of-sync:"+k.Op, fmt.Sprintf("after the operation the client is out of step with the kernel: a following SetBacklogLimit + GetStatus, both acknowledged cleanly, returned %v / wrong data\n  %s", o.Follow, desc), k)
 	}
 }
 
